@@ -23,11 +23,13 @@ pub struct CrashOracle {
 	seen_outdated: BTreeSet<(usize, ChannelId)>,
 	restarted: BTreeSet<usize>,
 	any_closed: bool,
+	/// the scenario itself force-closes a channel (user request): errors / closures are expected
+	pub user_close: bool,
 }
 
 impl CrashOracle {
 	pub fn new(chans: Vec<ChanInfo>) -> Self {
-		CrashOracle { chans, expected_outdated: BTreeSet::new(), seen_outdated: BTreeSet::new(), restarted: BTreeSet::new(), any_closed: false }
+		CrashOracle { chans, expected_outdated: BTreeSet::new(), seen_outdated: BTreeSet::new(), restarted: BTreeSet::new(), any_closed: false, user_close: false }
 	}
 }
 
@@ -38,11 +40,15 @@ impl Oracle for CrashOracle {
 	fn observe(&mut self, _w: &World, obs: &[Obs]) -> Result<(), Failure> {
 		for o in obs {
 			match o {
-				Obs::Restarted { node, chosen, mgr_known_ids, .. } => {
+				Obs::Restarted { node, chosen, mgr_known_ids, mgr_known_open, .. } => {
 					self.restarted.insert(*node);
 					for (cid, mon_id) in chosen.iter() {
 						let known = mgr_known_ids.iter().find(|(c, _)| c == cid).map(|(_, i)| *i);
 						match known {
+							Some(k) if *mon_id > k && !mgr_known_open.contains(cid) => {
+								// the channel was already closed in the manager as written: nothing to force-close
+								crate::runner::witness("restart-with-monitor-ahead-of-manager-channel-already-closed");
+							},
 							Some(k) if *mon_id > k => {
 								self.expected_outdated.insert((*node, *cid));
 								crate::runner::witness("restart-with-monitor-ahead-of-manager");
@@ -67,19 +73,19 @@ impl Oracle for CrashOracle {
 						ClosureReason::CounterpartyForceClosed { .. }
 						| ClosureReason::CommitmentTxConfirmed
 						| ClosureReason::HolderForceClosed { .. } => {
-							if self.expected_outdated.is_empty() {
+							if self.expected_outdated.is_empty() && !self.user_close {
 								return Err(Failure::new("restart", format!("node {} closed a channel ({:?}) although no restart required it", node, reason)));
 							}
 						},
 						other => {
-							if self.expected_outdated.is_empty() {
+							if self.expected_outdated.is_empty() && !self.user_close {
 								return Err(Failure::new("restart", format!("node {} closed a channel: {:?}", node, other)));
 							}
 						},
 					}
 				},
 				Obs::Sent { from, wire: Wire::Error(m), .. } => {
-					if self.expected_outdated.is_empty() {
+					if self.expected_outdated.is_empty() && !self.user_close {
 						return Err(Failure::new("restart", format!("node {} sent an error although every monitor matched its manager: {}", from, m.data)));
 					}
 				},
@@ -126,6 +132,15 @@ impl Oracle for CrashOracle {
 				)));
 			}
 			if p.failed_by_recipient && failed == 0 {
+				// A sender restarted from a manager older than the send no longer lists the payment at all;
+				// the property then only asks that nothing is in flight and it can never complete.
+				let listed = !w.nodes[p.from].cm.list_recent_payments().is_empty();
+				let pending_htlcs: usize = w.nodes[p.from].cm.list_channels().iter().map(|c| c.pending_outbound_htlcs.len()).sum();
+				if restarted_sender && !listed && pending_htlcs == 0 {
+					crate::runner::witness("restarted-sender-forgot-resolved-payment");
+					label.push('0');
+					continue;
+				}
 				return Err(f("recipient failed the payment but the sender never saw PaymentFailed".into()));
 			}
 			label.push(if sent > 0 { 'S' } else if failed > 0 { 'F' } else { '?' });
